@@ -256,6 +256,16 @@ pub fn gen(out: &mut Out, thorough: bool, seed: u64) {
             }
         }
     }
+    // EMPTY bodies with explicit framing (`Content-Length: 0`, a chunked body of no chunks) on statuses that may carry content,
+    // after which the upstream keeps the connection open: the message is complete, the answer is due at once
+    for code in [200u16, 301, 404, 500] {
+        for framing in 0..2u8 {
+            let bytes = resp_bytes(&mut rng, code, framing, b"");
+            let req = rng.pick(&client_reqs).clone();
+            add(&mut cases, &req, vec![format!("d{}", hex(&bytes)), "s".into()], "-");
+            add(&mut cases, &req, vec![format!("d{}", hex(&bytes)), "e".into()], "-");
+        }
+    }
     // each valid response cut at byte offsets (every offset for a few, sampled otherwise), then closed or stalled
     let cut_rounds = if thorough { 40 } else { 4 };
     for _ in 0..cut_rounds {
